@@ -124,7 +124,9 @@ class Verdict:
         if self.errors:
             for m in self.errors:
                 print("HARNESS-ERROR property=%s %s" % (self.prop_id, m))
-            return 2
+            # a confirmed, replayable violation stands even if the run was cut short afterwards (fail-fast makes the
+            # coverage statistics vacuous); without one, a harness error is exit 2
+            return 1 if n_new else 2
         if n_new:
             return 1
         if self.unstable:
